@@ -253,6 +253,25 @@ def mon_c14(case_line, acts):
     return out
 
 
+def mon_refused_too_large(case_line, acts):
+    """a publish / subscribe / unsubscribe refused with the packet-too-large error has retained nothing: the refused packet
+    must not sit in the queue, where no acknowledgement can ever remove it and every later poll() stumbles over it"""
+    out = []
+    for i, a in enumerate(acts):
+        if i == 0 or a.code not in (1, 2, 3) or (a.result or '') != 'err PacketTooLarge':
+            continue
+        st, prev = a.state or {}, acts[i - 1].state or {}
+        if 'ret' not in st or 'ret' not in prev:
+            continue
+        ids = lambda x: [e.split(':')[0] for e in list_field(x.get('ret', '[]'))]
+        new = [p for p in ids(st) if p not in ids(prev)]
+        if new:
+            out.append(V('the request of action #%d was refused with PacketTooLarge but its packet (identifier %s) stays '
+                         'retained: nothing will ever acknowledge it' % (i, new)))
+            break
+    return out
+
+
 # ---------------------------------------------------------------- C06 / C07 / C02 / C03: wire + ack accounting
 class Flow:
     """incremental view of one session: client packets completed on the wire and acks consumed, in event order"""
@@ -313,6 +332,17 @@ def _varint_bytes(n):
 def mon_c06(case_line, acts):
     """unresolved QoS>0 PUBLISH packets never exceed the Receive Maximum of the current CONNACK"""
     out = []
+    # "no QoS 2 exchange is ever dropped because too many of them are waiting for PUBCOMP": a PUBREC for a retained QoS 2
+    # PUBLISH is never answered with the in-flight-exhausted error
+    for i0, a0 in enumerate(acts):
+        if a0.code in (5, 6, 7) and (a0.result or '') == 'err InflightExhausted' and i0 > 0:
+            before = _ret_bytes(acts[i0 - 1].state)
+            after = _ret_bytes(a0.state)
+            gone = [pid for pid, img in before.items() if pid not in after and img and img[0] >> 4 == 3 and (img[0] >> 1) & 3 == 2]
+            if gone:
+                out.append(V('action #%d returned InflightExhausted: the PUBREC of the QoS 2 publish %s removed the PUBLISH but no '
+                             'release slot was left - the exchange is dropped' % (i0, gone)))
+                return out
     fl = Flow(acts)
     unresolved = {}        # pid -> qos
     released = set()       # QoS 2 identifiers whose PUBREL has been written
@@ -1172,6 +1202,18 @@ def mon_c10(case_line, acts):
             if res.startswith('ok'):
                 live = True
                 K = int(st.get('ka', '0')) if st.get('ka', '0').isdigit() else 0
+                # the effective keep-alive of THIS connection, from the property text: the Server Keep Alive of this
+                # CONNACK if present, otherwise the configured value - nothing an earlier connection said
+                pc = parse_case(case_line)
+                info = connack_info(bytes(inb))
+                if pc is not None and info is not None:
+                    want = info[2].get(0x13)
+                    want = (pc['cfg']['ka'] % 65536 if want is None else want) * 1000
+                    if want != K and 'ka' in st:
+                        out.append(V('connection established at action #%d: effective keep-alive is %d ms (%s), the client '
+                                     'runs with %d ms' % (i, want, 'Server Keep Alive of this CONNACK' if 0x13 in info[2]
+                                                          else 'configured, this CONNACK names none', K)))
+                    K = want
                 last = now
             else:
                 tainted = True
@@ -1425,6 +1467,8 @@ def mon_c12(case_line, acts):
     was conformant (exactly one well-formed CONNACK, reason 0, session present only if no clean start was asked for)
     must succeed, start with a whole CONNECT, carry nothing partial over and leave a usable session."""
     out = []
+    pc0 = parse_case(case_line)
+    cid_now = pc0['cfg']['cid'] if pc0 else None      # configured, later the one assigned by the latest ACCEPTED CONNACK
     for i, a in enumerate(acts):
         if a.code != 0:
             continue
@@ -1445,6 +1489,20 @@ def mon_c12(case_line, acts):
                     healthy = False
                 elif e[2]:
                     inb += bytes.fromhex(e[3])
+        # the identity the CONNECT presents: nothing a refused or garbled handshake said may change it
+        if cid_now is not None and wire:
+            pk0, _, _ = mqttspec.parse_client_stream(bytes(wire), strict_flags=False)
+            if pk0 and pk0[0]['type'] == 'CONNECT' and pk0[0].get('client_id') is not None:
+                got = pk0[0]['client_id']
+                got = got.encode() if isinstance(got, str) else bytes(got)
+                if got != bytes(cid_now):
+                    out.append(V('CONNECT at action #%d presents client identifier %r; configured / last assigned by an accepted '
+                                 'CONNACK is %r' % (i, got, bytes(cid_now))))
+        if res.startswith('ok'):
+            info0 = connack_info(bytes(inb))
+            if info0 is not None and 0x12 in info0[2]:
+                v0 = info0[2][0x12]
+                cid_now = v0.encode() if isinstance(v0, str) else bytes(v0)
         if not healthy or res in ('PANIC', 'FUEL', 'noconn'):
             continue
         prev = acts[i - 1].state if i > 0 and acts[i - 1].state else {}
